@@ -688,8 +688,9 @@ pub fn churn_par<S: Strat>() {
 /// T0 has exited (its node is cooling down); X and Y, both new to the crate, start at the same
 /// time and race for that node while W stores. Each takes a guard, uses it and lets it go.
 pub fn churn_two<S: Strat>() {
-    // Thread churn is the subject: whatever fails here is (also) a C11 failure.
-    rt::set_context_tag("C11");
+    // Thread churn is the subject: whatever fails here is (also) a C11 failure, and what is at
+    // stake when two threads end up with one node is the protection of their guards (C10).
+    rt::set_context_tag("C11,C10");
     let c = Cont::<S>::new(0, V::new(1));
     let fil = filler::<S>();
     let w = {
